@@ -265,6 +265,15 @@ class Replayer:
                 self.down = True
                 self.seen = len(w.rec.events)
             return True
+        if name == "Age":
+            # time passes: this incarnation has been up for longer than the orphan retention period
+            I = w.inst.get("i0")
+            if I is not None:
+                t0 = getattr(I.engine.task_dispatcher, "startup_time", W.CLOCK.now)
+                target = t0 + (I.engine.task_dispatcher.orphaned_response_retention_ms or 0) / 1000.0
+                if W.CLOCK.now < target:
+                    w.advance(target)
+            return True
         if name == "Restart":
             w.restart("i0")
             self.down = False
@@ -328,7 +337,10 @@ class Replayer:
                                    model=(target.get("ops", []) if crash_after is None else (want_prefix or [])))
         if crash_after is None:
             want = model_ops(target.get("ops", []))
-            if real != want:
+            # (one scan may hand over several parked replies; the order among them is the iteration order of a dict
+            # in the code, an arbitrary CHOOSE in the model: compared as bags)
+            same = sorted(map(str, real)) == sorted(map(str, want)) if cause == "orphanscan" else real == want
+            if not same:
                 self.drift.append(("frame-ops", cause, trig, want, real))
         else:
             # the frame was cut short: compare the broker operations (the store writes between the last broker
